@@ -206,3 +206,66 @@ def install(ex=None):
 def native_open_contract(ex, args, kwargs):
     """NativeOSFS.open(*args, **kwargs) -> io.open: the same T-FS contract"""
     return fs_open(ex, args[1:], kwargs)
+
+
+# ---------------------------------------------------------------------------
+# T-PATH: os.path / fs.path as uninterpreted functions with the few laws used
+
+os_join = z3.Function("os_path_join", S, S, S)
+os_normpath = z3.Function("os_path_normpath", S, S)
+os_split_head = z3.Function("os_path_split_head", S, S)
+os_split_tail = z3.Function("os_path_split_tail", S, S)
+fs_join = z3.Function("fs_path_join", S, S, S)
+fs_normpath = z3.Function("fs_path_normpath", S, S)
+fs_split_head = z3.Function("fs_path_split_head", S, S)
+fs_split_tail = z3.Function("fs_path_split_tail", S, S)
+splitext_root = z3.Function("os_path_splitext_root", S, S)
+splitext_ext = z3.Function("os_path_splitext_ext", S, S)
+
+
+def _join_model(f):
+    def m(ex, args, kwargs):
+        if len(args) != 2:
+            raise Unsupported("path join with other than two parts")
+        ex.assumptions_used.add("T-PATH: os.path / fs.path join, split, normpath, splitext as uninterpreted functions")
+        return SV(f(term(args[0], STR), term(args[1], STR)), STR)
+    return m
+
+
+def _norm_model(f):
+    def m(ex, args, kwargs):
+        ex.assumptions_used.add("T-PATH: os.path / fs.path join, split, normpath, splitext as uninterpreted functions")
+        return SV(f(term(args[0], STR)), STR)
+    return m
+
+
+def _split_model(h, t):
+    def m(ex, args, kwargs):
+        ex.assumptions_used.add("T-PATH: os.path / fs.path join, split, normpath, splitext as uninterpreted functions")
+        p = term(args[0], STR)
+        return (SV(h(p), STR), SV(t(p), STR))
+    return m
+
+
+def install_paths():
+    import os.path
+    import fs.path
+    M.REAL_CALL[os.path.join] = _join_model(os_join)
+    M.REAL_CALL[os.path.normpath] = _norm_model(os_normpath)
+    M.REAL_CALL[os.path.split] = _split_model(os_split_head, os_split_tail)
+    M.REAL_CALL[os.path.splitext] = _split_model(splitext_root, splitext_ext)
+    M.REAL_CALL[fs.path.join] = _join_model(fs_join)
+    M.REAL_CALL[fs.path.normpath] = _norm_model(fs_normpath)
+    M.REAL_CALL[fs.path.split] = _split_model(fs_split_head, fs_split_tail)
+
+
+_install0 = install
+
+
+def install(ex=None):
+    _install0(ex)
+    install_paths()
+
+
+def native_listdir_contract(ex, args, kwargs):
+    return _fs_method(ex, args[0], "listdir", list(args[1:]), kwargs)
